@@ -66,6 +66,7 @@ class Runner:
         self.trace = []  # every step executed in this process (for the replay)
         self.replay_base = replay_base
         self.shared = {}
+        self.lookup_lists = {}
         self.prev_cls = None
 
     def run_history(self, steps):
@@ -91,6 +92,14 @@ class Runner:
                         acc.count("calls_on_reused_compiler")
                     comp = compilers[st["compiler"]]
                     comp.lookup_paths = list(job.get("lookup") or [])
+                if job.get("lookup_shared"):
+                    # the caller keeps one list of lookup paths and hands the same object to every compiler it makes
+                    lst = self.lookup_lists.setdefault(tuple(job["lookup"]), list(job["lookup"]))
+                    if comp is None:
+                        comp = ExplorerScriptSsbCompiler(PPL, lst)
+                    else:
+                        comp.lookup_paths = lst
+                    acc.count("calls_with_a_lookup_list_shared_between_compilers")
             elif st.get("shared"):
                 if st["job"] in self.shared:
                     mode = "input-objects-handed-in-again"
